@@ -24,8 +24,10 @@ ASSUMPTIONS = [
     "vf/interp.py gives break/continue the innermost-loop semantics of the statement",
 ]
 
-CONSTRUCTS = ["block", "if", "ifelse-then", "ifelse-else", "for", "while", "do", "for-nocond"]
-LOOPS = {"for", "while", "do", "for-nocond"}
+CONSTRUCTS = ["block", "if", "ifelse-then", "ifelse-else", "for", "while", "do", "for-nocond",
+              "do-once", "if-literal-0", "else-of-if-literal-1"]
+LOOPS = {"for", "while", "do", "for-nocond", "do-once"}
+RARE = {"do-once", "if-literal-0", "else-of-if-literal-1", "for-nocond"}   # at most one of these per enumerated path
 SIBLINGS = ["none", "loop-before", "loop-after", "loop-in-other-function", "return-before", "if-before",
             "clean-function-after"]
 
@@ -84,6 +86,15 @@ class Builder:
             i = self.fresh("i")
             return M.For(M.Decl(INT, i, lit(0)), M.Bin("<", M.Var(i, INT), lit(2)),
                          M.Affix("++", M.Var(i, INT), True), body)
+        if construct == "do-once":
+            # do { ... } while ( 0 ): a loop that runs exactly once; break / continue inside belong to it
+            stmts = body.stmts if isinstance(body, M.Block) else [body]
+            return M.Do(M.Block(list(stmts)), lit(0))
+        if construct == "if-literal-0":
+            # never taken, but still a statement of the program (the rule is lexical)
+            return M.If(lit(0), body)
+        if construct == "else-of-if-literal-1":
+            return M.If(lit(1), M.Block([inc(self.counter("gthn"))]), body)
         if construct == "for-nocond":
             # `for (int i = 0; ; ++i)`: no condition, left through its own break
             i = self.fresh("i")
@@ -120,7 +131,7 @@ def path_program(path, flow, sibling, bare):
         inner = [M.Return(M.Var("p", INT)), fl]
     elif sibling == "if-before":
         inner = [M.If(M.Bin("==", M.Var("p", INT), lit(7)), M.Block([M.Return(lit(0))])), fl]
-    use_bare = bare and sibling in ("none", "loop-in-other-function") and path and path[-1] not in ("block", "do", "for-nocond")
+    use_bare = bare and sibling in ("none", "loop-in-other-function") and path and path[-1] not in ("block", "do", "for-nocond", "do-once")
     stmt_list = inner
     for k, c in enumerate(reversed(path)):
         stmt_list = [b.wrap(c, stmt_list, bare=(use_bare and k == 0))]
@@ -269,10 +280,12 @@ def run(R):
         out = []
         for n in range(0, D + 1):
             for path in itertools.product(CONSTRUCTS, repeat=n):
+                if sum(1 for c in path if c in RARE) > 1:
+                    continue
                 for flow in ("break", "continue"):
                     for sib in SIBLINGS:
                         for bare in (False, True):
-                            if bare and (not path or path[-1] in ("block", "do", "for-nocond") or sib not in ("none", "loop-in-other-function")):
+                            if bare and (not path or path[-1] in ("block", "do", "for-nocond", "do-once") or sib not in ("none", "loop-in-other-function")):
                                 continue
                             out.append((path, flow, sib, bare))
         return out
